@@ -9,13 +9,20 @@ from ombott.request_pkg.errors import BodyParsingError, RequestError
 
 PROPERTY = "C05"
 TECHNIQUE = ("bounded symbolic execution of _iter_chunked/_body_read (CrossHair+z3): symbolic payload, buffer size, "
-             "short-read lengths, truncation point, corrupted byte; differential against a strict RFC 7230 chunk grammar")
+             "short-read lengths, truncation point, corrupted byte; differential against a strict RFC 7230 chunk grammar; "
+             "chunk sizes 1..2**17 as solver integers (solver hex digits, opaque payload) through Ombott.__call__/Request.body")
 LEVEL_TEXT = ("For each enumerated legal encoding shape the real decoder is executed on a symbolic payload with symbolic buffer "
               "size and short-read lengths (exactness), on every truncation length (symbolic) and with one framing byte "
               "replaced by a symbolic value 0..255 at a symbolic position; plus all byte strings up to a small length. z3 "
               "decides every branch, so inside the bound: legal encodings decode to the payload, every cut before the end of "
               "the zero-size chunk line is a BodyParsingError, corruption yields bytes or a client error only and agrees with "
-              "a strict reference grammar whenever the corrupted text is itself legal.")
+              "a strict reference grammar whenever the corrupted text is itself legal.  Size families: the whole path "
+              "wsgi.input -> Ombott.__call__ -> Request.body.read() is executed with one (two) chunk(s) whose size is a solver "
+              "integer 1..131072 spelled by solver hex digits, max_memfile_size a solver integer 16..131072 (chunk <= 2-5 buffers), "
+              "solver short reads, a stream that hands out data across chunk boundaries, opaque payload compared by offset: "
+              "200 and the exact payload for legal encodings, 4xx for every cut length and for any byte other than CR LF after "
+              "the data; the same for a second request to the same application; concrete sizes 2**k-1..2**k+1 / 102399..102401 "
+              "with up to 16 buffers per chunk.")
 LEVEL_NOTE = ("Trusted: z3, CrossHair models of bytes/int/list, vf/chmodels int(text,16) character-class model (validated "
               "against CPython on 540k inputs at start-up), SymStream stub, the reference grammar in this file. Shapes of "
               "encodings are enumerated, not symbolic. A size line longer than the buffer may be rejected (tolerated).")
@@ -26,10 +33,21 @@ FUNCTIONS = [
     "ombott.request_pkg.request:BaseRequest._raise",
 ]
 STUBS = ["SymStream (see C04)", "PyBytesIO for io.BytesIO/TemporaryFile inside body_mixin",
-         "vf.chmodels.int_model for int(bytes, 16)"]
-ASSUMPTIONS = ["payload bytes are opaque to the decoder", "HTTP layer hands the raw chunked stream to wsgi.input"]
-OUTSIDE = ["encodings other than the enumerated shapes (chunk sizes <= 5, <= 3 chunks)", "payload longer than 8 bytes",
-           "more than 3 short reads", "fully symbolic inputs longer than the stated length",
+         "vf.chmodels.int_model for int(bytes, 16)",
+         "vf.stubs_c05.Rope/Lit: bytes-like value of framing bytes + opaque payload ranges (offset, solver length), every "
+         "payload byte is b'x'; len/slice/index/concat/==/startswith/endswith validated against real bytes at import",
+         "vf.stubs_c05.RopeStream: wsgi.input over such segments, reads cross segment boundaries, b'' at EOF, optional short "
+         "reads for reads that start inside payload; validated against io.BytesIO",
+         "vf.stubs_c05.RopeIO: PyBytesIO whose read()/getvalue() concatenate Ropes (same differential validation as PyBytesIO)"]
+ASSUMPTIONS = ["payload bytes are opaque to the decoder", "HTTP layer hands the raw chunked stream to wsgi.input",
+               "size families: every opaque payload byte has the value b'x' (code that inspects payload sees that value); "
+               "the size-hole queries put 5 solver bytes at a solver offset of the big chunk instead"]
+OUTSIDE = ["byte-level families: encodings other than the enumerated shapes (chunk sizes <= 5, <= 3 chunks), payload longer "
+           "than 8 bytes, more than 3 short reads", "fully symbolic inputs longer than the stated length",
+           "size families: chunks > 131072 bytes, a solver-sized chunk needing more reads than the stated multiple of the "
+           "buffer, more than two solver-sized chunks per body, short reads that start inside framing, size-line digit "
+           "classes other than the stated pattern of each query (quick: 0-9 everywhere / a-f in the low 3-4 digits; "
+           "thorough: free 0-9a-f(A-F)), framing corruption other than the CRLF after the data at these sizes",
            "size lines longer than the configured buffer (may be a client error by design)"]
 BUDGET_S = {"quick": 270, "thorough": 1150}
 
@@ -675,9 +693,9 @@ def size_queries(tier):
                      "bytes 0..total in order, status 200" % nfrag,
                      timeout=120 if not T else 900, expect_cover=["chunk>buffer", "chunk>8K", "chunk>64K"],
                      family="size-exact", config=repr(sp)))
-    trunc = [("mid", "zdddd", 2)]
+    trunc = [("mid", "zdddd", 2), ("first", "zdddd", 2)]
     if T:
-        trunc += [("first", "zdddd", 3), ("only", "zhhhh", 3), ("mid", "zdxxx", 3)]
+        trunc += [("first", "zdddd", 3), ("only", "zdhhd", 3), ("mid", "zdxxx", 3)]
     for tag, pattern, reads in trunc:
         sp = _with(SIZE_SPECS[tag], pattern)
         out.append(Q("size-trunc/%s/%s/r%d" % (tag, pattern, reads), make_size_truncate(sp, lo, hi, reads),
@@ -718,10 +736,10 @@ def size_queries(tier):
                "max_memfile_size one of %r (N <= 16*b); payload opaque" % (
                    sp["chunks"], sizes, sp["style"], sp["ext"], sp["trailer"], CONC_BUFFERS))
         out.append(Q("conc-exact/%s" % tag, make_conc(sp, sizes, CONC_BUFFERS, "exact"),
-                     txt + "; first two reads inside N are short (solver lengths >= 1)", timeout=240 if not T else 900,
+                     txt + "; first two reads inside N are short (solver lengths >= 1)", timeout=150 if not T else 900,
                      expect_cover=["chunk>buffer"], family="conc", config=repr((sp, sizes))))
         out.append(Q("conc-trunc/%s" % tag, make_conc(sp, sizes, CONC_BUFFERS, "trunc"),
-                     txt + "; stream ends after k bytes, every k < core (solver integer): 4xx", timeout=300 if not T else 900,
+                     txt + "; stream ends after k bytes, every k < core (solver integer): 4xx", timeout=150 if not T else 900,
                      expect_cover=["rejected"], family="conc", config=repr((sp, sizes))))
     return out
 
@@ -758,4 +776,33 @@ def selftest(tier):
         ref = strict_decode(body)
         assert ref is not None and b"".join(body[a:a + n] for a, n in ref) == b"abcdefghijklmnopqrstuvwxyz\n", body
     assert strict_decode(b"abcdefghijklmnopqrstuvwxyz\n") is None
-    return []
+    # the opaque-payload model against the real thing: the same encodings as real bytes through io.BytesIO
+    import io
+    for tag, n, b, cut in (("mid", 9000, 102400, None), ("first", 0x1fff, 64, None), ("only", 70000, 8192, None),
+                           ("mid", 8193, 8192, 8000), ("first", 300, 100, 299)):
+        sp = SIZE_SPECS[tag]
+        h = (("%%0%dx" % len(sp["pattern"])) % n).encode()
+        segs, core, payload = build(sp, {"N": (h, n, None)})
+        raw = b"".join(R.flatten(x) for x in segs)
+        want = b"".join(R.flatten(x) for x in payload)
+        assert strict_decode(raw) is not None and len(want) == n + sum(c for c in sp["chunks"] if c != "N")
+        outs = []
+        for stream in (io.BytesIO(raw if cut is None else raw[:cut]), R.RopeStream(segs, cut)):
+            app, seen = new_app(b)
+            code, calls, errs = post(app, stream)
+            outs.append((code, calls, [R.flatten(x) for x in seen]))
+        assert outs[0] == outs[1] == (("200", 1, [want]) if cut is None else ("400", 1, [])), (tag, n, b, cut, outs[0][:2])
+    none = dict(hb=b"", a=0)
+    return [
+        ("size-exact/mid/zdddd/f1r3", dict(h=b"02001", b=102400, f1=5, f2=1, h2=b"", **none), "ok"),
+        ("size-exact/mid/zdddd/f1r3", dict(h=b"19000", b=40000, f1=1 << 20, f2=1, h2=b"", **none), "ok"),
+        ("size-exact/mid/zdddd/f1r3", dict(h=b"0200a", b=102400, f1=5, f2=1, h2=b"", **none), "rejected"),
+        ("size-exact/mid/zdxxx/f1r2", dict(h=b"01fff", b=8191, f1=8190, f2=1, h2=b"", **none), "ok"),
+        ("size-trunc/mid/zdddd/r2", dict(h=b"02001", b=8192, k=8200, **none), "ok"),
+        ("size-trunc/mid/zdddd/r2", dict(h=b"02001", b=8192, k=8218, **none), "rejected"),
+        ("size-crlf/mid/zdddd", dict(h=b"10001", b=65536, v=10, second=False), "ok"),
+        ("size-hole-exact/mid/zdddd", dict(h=b"02710", b=8192, f1=1, f2=1, hb=b"\r\n0\r\n", a=8185, h2=b""), "ok"),
+        ("size-again/only/zdddd", dict(si=1, cut=True, h=b"02001", b=8192), "ok"),
+        ("conc-exact/up", dict(si=1, bi=2, f1=100, f2=1, k=0), "ok"),
+        ("conc-trunc/up", dict(si=1, bi=1, f1=1, f2=1, k=4000), "ok"),
+    ]
